@@ -33,7 +33,10 @@ def correspondence(ctx):
     for _ in range(ctx.n(500)):
         seq, descs = hard.rand_problem(rng)
         try:
-            stub, space, restrs = C15.build(seq, descs)
+            built = vlib.limited(lambda: C15.build(seq, descs), 10, None, errors)
+            if built is None:
+                continue
+            stub, space, restrs = built
         except Exception as e:
             errors[type(e).__name__] = errors.get(type(e).__name__, 0) + 1
             continue
